@@ -442,6 +442,7 @@ void SGal3TangentBase<_Derived>::fillE(
 
   // small angle approx.
   if (theta_sq < Constants<Scalar>::eps) {
+    E.noalias() += Scalar(1. / 6.) * so3.hat();
     return;
   }
 
